@@ -1,6 +1,9 @@
 // E2 (wire) correspondence harness, package mcp: the real content (un)marshalling, json.Marshal /
 // Unmarshal of every params/result type reachable from the method tables, results as the SDK sends
-// them (zero-valued handler results with nil lists), ioConn read/write with batches over an
+// them (zero-valued handler results with nil lists, handlers returning (nil, nil) — in a child
+// process —, raw Server.AddTool handlers returning every combination of nil/empty/non-empty Content x
+// nil/non-nil StructuredContent x IsError on legacy and current sessions), ioConn read/write with
+// batches (frames also in foreign string spellings) over an
 // in-memory stream, writeEvent/scanEvents, and byte-level fuzz of the decoders.
 // Streams: TestVerifWireMcp (C19), TestVerifWireBatch (C02: ioConn batch bookkeeping).
 package mcp
@@ -18,6 +21,7 @@ import (
 	"math/rand"
 	"net/http/httptest"
 	"os"
+	"os/exec"
 	"path/filepath"
 	"reflect"
 	"sort"
@@ -748,12 +752,18 @@ type zeroWorld struct {
 	variant    string
 }
 
-func newZeroWorld(variant string) (*zeroWorld, error) {
+// newZeroWorld: variant nil/empty/emptytext = what the handlers leave in the required list;
+// nilres = the handlers return (nil, nil). ver old = a 2025-11-25 session, new = the latest protocol.
+func newZeroWorld(variant, ver string) (*zeroWorld, error) {
 	ctx := context.Background()
 	w := &zeroWorld{variant: variant}
 	empty := variant == "empty" || variant == "emptytext"
+	nilres := variant == "nilres"
 	s := NewServer(&Implementation{Name: "s", Version: "1"}, &ServerOptions{
 		CompletionHandler: func(context.Context, *CompleteRequest) (*CompleteResult, error) {
+			if nilres {
+				return nil, nil
+			}
 			r := &CompleteResult{}
 			if empty {
 				r.Completion.Values = []string{}
@@ -762,6 +772,9 @@ func newZeroWorld(variant string) (*zeroWorld, error) {
 		},
 	})
 	s.AddTool(&Tool{Name: "t", InputSchema: map[string]any{"type": "object"}}, func(context.Context, *CallToolRequest) (*CallToolResult, error) {
+		if nilres {
+			return nil, nil
+		}
 		r := &CallToolResult{}
 		if empty {
 			r.Content = []Content{}
@@ -769,6 +782,9 @@ func newZeroWorld(variant string) (*zeroWorld, error) {
 		return r, nil
 	})
 	s.AddPrompt(&Prompt{Name: "p"}, func(context.Context, *GetPromptRequest) (*GetPromptResult, error) {
+		if nilres {
+			return nil, nil
+		}
 		r := &GetPromptResult{}
 		if empty {
 			r.Messages = []*PromptMessage{}
@@ -776,6 +792,9 @@ func newZeroWorld(variant string) (*zeroWorld, error) {
 		return r, nil
 	})
 	s.AddResource(&Resource{Name: "r", URI: "file:///r"}, func(context.Context, *ReadResourceRequest) (*ReadResourceResult, error) {
+		if nilres {
+			return nil, nil
+		}
 		r := &ReadResourceResult{}
 		if empty {
 			r.Contents = []*ResourceContents{}
@@ -793,7 +812,11 @@ func newZeroWorld(variant string) (*zeroWorld, error) {
 	}
 	c := NewClient(&Implementation{Name: "c", Version: "1"}, nil)
 	// a legacy protocol version: the server may still send roots/list to the client
-	cs, err := c.Connect(ctx, w.cliT, &ClientSessionOptions{ProtocolVersion: protocolVersion20251125})
+	var opts *ClientSessionOptions
+	if ver != "new" {
+		opts = &ClientSessionOptions{ProtocolVersion: protocolVersion20251125}
+	}
+	cs, err := c.Connect(ctx, w.cliT, opts)
 	if err != nil {
 		return nil, err
 	}
@@ -871,6 +894,156 @@ func (w *zeroWorld) call(method string) string {
 		return "no-result"
 	}
 	return res.tok()
+}
+
+// ------------------------------------------------------------------ tools/call through a raw ToolHandler
+
+// callWorld: a server with one tool registered with the low-level Server.AddTool; the handler returns
+// whatever the current op prescribes. The result is observed as the server wrote it.
+type callWorld struct {
+	cs   *ClientSession
+	ss   *ServerSession
+	srvT *recTransport
+	next func() (*CallToolResult, error)
+}
+
+func newCallWorld(ver string) (*callWorld, error) {
+	ctx := context.Background()
+	w := &callWorld{}
+	s := NewServer(&Implementation{Name: "s", Version: "1"}, nil)
+	s.AddTool(&Tool{Name: "raw", InputSchema: map[string]any{"type": "object"}}, func(context.Context, *CallToolRequest) (*CallToolResult, error) {
+		return w.next()
+	})
+	t1, t2 := NewInMemoryTransports()
+	w.srvT = &recTransport{Transport: t1}
+	ss, err := s.Connect(ctx, w.srvT, nil)
+	if err != nil {
+		return nil, err
+	}
+	c := NewClient(&Implementation{Name: "c", Version: "1"}, nil)
+	var opts *ClientSessionOptions
+	if ver != "new" {
+		opts = &ClientSessionOptions{ProtocolVersion: protocolVersion20251125}
+	}
+	cs, err := c.Connect(ctx, t2, opts)
+	if err != nil {
+		return nil, err
+	}
+	w.cs, w.ss = cs, ss
+	return w, nil
+}
+
+func (w *callWorld) close() {
+	w.cs.Close()
+	w.ss.Wait()
+}
+
+func resultTok(data []byte) string {
+	if data == nil {
+		return "no-response"
+	}
+	v, err := parseJSON(data)
+	if err != nil {
+		return "unparsable"
+	}
+	if _, isErr := v.get("error"); isErr {
+		return "error"
+	}
+	res, ok := v.get("result")
+	if !ok {
+		return "no-result"
+	}
+	return res.tok()
+}
+
+func (w *callWorld) call(next func() (*CallToolResult, error)) string {
+	ctx, cancel := context.WithTimeout(context.Background(), 10*time.Second)
+	defer cancel()
+	w.next = next
+	w.srvT.mu.Lock()
+	w.srvT.sent = nil
+	w.srvT.mu.Unlock()
+	w.cs.CallTool(ctx, &CallToolParams{Name: "raw"})
+	return resultTok(w.srvT.last())
+}
+
+// parseCall reads "<res <contents|nil> <-|any jv|raw jv> <0|1>" | "err" | "nilres" into a handler.
+func (p *tokStream) toolReturn() (func() (*CallToolResult, error), bool) {
+	switch p.next() {
+	case "err":
+		return func() (*CallToolResult, error) { return nil, errors.New("tool failed") }, true
+	case "nilres":
+		return func() (*CallToolResult, error) { return nil, nil }, true
+	case "res":
+		var cs []Content
+		if p.peek() == "nil" {
+			p.next()
+		} else {
+			var ok bool
+			if cs, ok = p.contents(); !ok {
+				return nil, false
+			}
+		}
+		var sc any
+		switch p.next() {
+		case "-":
+		case "any":
+			j, ok := p.jv()
+			if !ok || j.k == 'z' {
+				return nil, false
+			}
+			sc = j.goAny()
+		case "raw":
+			j, ok := p.jv()
+			if !ok {
+				return nil, false
+			}
+			sc = json.RawMessage(j.text())
+		default:
+			return nil, false
+		}
+		var isErr bool
+		switch p.next() {
+		case "0":
+		case "1":
+			isErr = true
+		default:
+			return nil, false
+		}
+		return func() (*CallToolResult, error) {
+			return &CallToolResult{Content: cs, StructuredContent: sc, IsError: isErr}, nil
+		}, true
+	}
+	return nil, false
+}
+
+// inChild runs one op in a fresh process (the same test binary): a panic in a goroutine of the SDK
+// cannot be recovered and would take the harness, and every record after it, away.
+func inChild(op string) string {
+	cmd := exec.Command(os.Args[0], "-test.run", "^TestVerifWireChild$", "-test.count=1")
+	cmd.Env = append(os.Environ(), "VERIF_CHILD_OP="+op)
+	out, err := cmd.CombinedOutput()
+	for _, l := range strings.Split(string(out), "\n") {
+		if rest, ok := strings.CutPrefix(l, "CHILD-OBS "); ok {
+			return strings.TrimSpace(rest)
+		}
+	}
+	if err != nil && strings.Contains(string(out), "panic:") {
+		return "panic"
+	}
+	return "child-failed"
+}
+
+func TestVerifWireChild(t *testing.T) {
+	op := os.Getenv("VERIF_CHILD_OP")
+	if op == "" {
+		t.Skip("only run as a child of the wire harness")
+	}
+	w := &wireWorld{child: true}
+	obs := w.apply(op)
+	fmt.Printf("\nCHILD-OBS %s\n", obs)
+	os.Stdout.Sync()
+	// the sessions are left as they are: the process ends here
 }
 
 // ------------------------------------------------------------------ ioConn over an in-memory stream
@@ -1141,6 +1314,8 @@ type wireWorld struct {
 	io    ioWorld
 	zero  map[string]*zeroWorld
 	empty *zeroWorld
+	calls map[string]*callWorld
+	child bool // running inside inChild
 }
 
 func (w *wireWorld) close() {
@@ -1154,7 +1329,10 @@ func (w *wireWorld) close() {
 	if w.empty != nil {
 		w.empty.close()
 	}
-	w.zero, w.empty = nil, nil
+	for _, c := range w.calls {
+		c.close()
+	}
+	w.zero, w.empty, w.calls = nil, nil, nil
 }
 
 func (w *wireWorld) apply(op string) (obs string) {
@@ -1258,8 +1436,39 @@ func (w *wireWorld) apply(op string) (obs string) {
 			return "unmarshal-error " + hxs(err.Error())
 		}
 		return marshalTok(x)
+	case "r.call":
+		// tools/call on a tool registered with the low-level Server.AddTool
+		ver := p.next()
+		if ver != "old" && ver != "new" {
+			return "bad-op"
+		}
+		next, ok := p.toolReturn()
+		if !ok || !p.done() {
+			return "bad-op"
+		}
+		if strings.HasSuffix(op, " nilres") && !w.child {
+			return inChild(op)
+		}
+		if w.calls == nil {
+			w.calls = map[string]*callWorld{}
+		}
+		if w.calls[ver] == nil {
+			c, err := newCallWorld(ver)
+			if err != nil {
+				return "setup-error"
+			}
+			w.calls[ver] = c
+		}
+		return w.calls[ver].call(next)
 	case "r.zero":
 		method, variant := p.next(), p.next()
+		ver := "old"
+		if !p.done() {
+			ver = p.next()
+		}
+		if variant == "nilres" && !w.child {
+			return inChild(op)
+		}
 		if w.zero == nil {
 			w.zero = map[string]*zeroWorld{}
 		}
@@ -1274,14 +1483,14 @@ func (w *wireWorld) apply(op string) (obs string) {
 			}
 			z = w.empty
 		} else {
-			if w.zero[variant] == nil {
-				n, err := newZeroWorld(variant)
+			if w.zero[variant+"/"+ver] == nil {
+				n, err := newZeroWorld(variant, ver)
 				if err != nil {
 					return "setup-error"
 				}
-				w.zero[variant] = n
+				w.zero[variant+"/"+ver] = n
 			}
-			z = w.zero[variant]
+			z = w.zero[variant+"/"+ver]
 		}
 		return z.call(method)
 	case "sse.write":
@@ -1735,6 +1944,11 @@ func (g *ioGen) run(step stepper) {
 				tag += ",batch:calls-only"
 			}
 		}
+		if r.Intn(4) == 0 {
+			// a peer that escapes: string ids, methods and member names in a foreign spelling
+			f = spellJ(r, f, []int{20, 100}[r.Intn(2)])
+			tag += ",spelled"
+		}
 		step("io.feed "+f.tok(), strings.Split(tag, ",")...)
 		fed++
 	}
@@ -1882,6 +2096,29 @@ func TestVerifWireMcp(t *testing.T) {
 			}
 		}
 		step("r.zero resources/read emptytext", "zero:resources/read", "variant:emptytext")
+		// user handlers that return (nil, nil), on a legacy and on a current session (run in a child process)
+		for _, ver := range []string{"old", "new"} {
+			for _, m := range []string{"tools/call", "prompts/get", "completion/complete", "resources/read"} {
+				step("r.zero "+m+" nilres "+ver, "zero:"+m, "variant:nilres", "ver:"+ver)
+			}
+		}
+		// tools/call on a tool registered with the low-level Server.AddTool: every combination of
+		// nil / empty / non-empty Content x nil / non-nil StructuredContent (value or raw) x IsError
+		step = newCase("rawtool")
+		for _, ver := range []string{"old", "new"} {
+			for _, cs := range [][2]string{{"nil", "content:nil"}, {"( )", "content:empty"},
+				{"( " + contentTok(&TextContent{Text: "hi"}) + " )", "content:one"},
+				{"( " + contentTok(&TextContent{}) + " " + contentTok(&ImageContent{MIMEType: "image/png"}) + " )", "content:two"}} {
+				for _, sc := range [][2]string{{"-", "structured:nil"}, {"any o{ 616e73776572 i42 }", "structured:object"}, {"any i42", "structured:primitive"},
+					{"raw o{ 616e73776572 i42 }", "structured:raw"}, {"raw z", "structured:raw-null"}} {
+					for _, ie := range []string{"0", "1"} {
+						step("r.call "+ver+" res "+cs[0]+" "+sc[0]+" "+ie, "ver:"+ver, cs[1], sc[1], "iserror:"+ie)
+					}
+				}
+			}
+			step("r.call "+ver+" err", "ver:"+ver, "handler:error")
+			step("r.call "+ver+" nilres", "ver:"+ver, "handler:nil-result")
+		}
 		// every type of the method tables at least once per run
 		step = newCase("types")
 		for _, name := range names {
@@ -1951,7 +2188,35 @@ func TestVerifWireMcp(t *testing.T) {
 			}
 			for i := 0; i < 3; i++ {
 				ctx := ctxNames[r.Intn(len(ctxNames))]
-				step("c.dec "+ctx+" "+otok(genContentJSON(g)), "ctx:"+ctx)
+				cj := genContentJSON(g)
+				if cj != nil && r.Intn(4) == 0 {
+					sp := spellJ(r, *cj, []int{20, 100}[r.Intn(2)])
+					cj = &sp
+				}
+				step("c.dec "+ctx+" "+otok(cj), append([]string{"ctx:" + ctx}, spellTags(otok(cj))...)...)
+			}
+			// a raw tool handler's result as it goes out
+			{
+				ver := []string{"old", "new"}[r.Intn(2)]
+				cs, ctag := "nil", "content:nil"
+				if r.Intn(3) > 0 {
+					var l []Content
+					for k := r.Intn(3); k > 0; k-- {
+						l = append(l, g.content(allKinds, 2))
+					}
+					cs, ctag = contentsTok(l), fmt.Sprintf("content:%d", len(l))
+				}
+				sc, stag := "-", "structured:nil"
+				switch r.Intn(4) {
+				case 0:
+					if j := genSafeJ(r, 2); j.k != 'z' {
+						sc, stag = "any "+j.tok(), "structured:any"
+					}
+				case 1:
+					sc, stag = "raw "+genJ(r, 2).tok(), "structured:raw"
+				}
+				ie := []string{"0", "1"}[r.Intn(2)]
+				step("r.call "+ver+" res "+cs+" "+sc+" "+ie, "ver:"+ver, ctag, stag, "iserror:"+ie)
 			}
 			// protocol values
 			for i := 0; i < 2; i++ {
